@@ -145,6 +145,28 @@ def validate_chunk(workdir, idx, records, focus="ALL", timeout=900):
     return sorted(set(verdicts)), sorted(set(knowns)), steps, stats, out
 
 
+def split_session(records, chunk_events):
+    """Cut a long session at its table resets.  Returns a list of (offset, piece); every piece
+    starts with the configuration in force.  Cookie bindings, groups and pairs are not carried
+    over a cut: that only makes the later piece's expectations weaker, never wrong."""
+    if len(records) <= 2 * chunk_events:
+        return [(0, records)]
+    out = []
+    cfgrec = records[0]
+    start, start_cfg = 0, records[0]
+    for ri in range(1, len(records)):
+        r = records[ri]
+        if r.get("ev") == "cfg":
+            cfgrec = r
+        if r.get("ev") == "reset" and ri - start >= chunk_events:
+            piece = records[start:ri]
+            out.append((start, piece if start == 0 else [start_cfg] + piece))
+            start, start_cfg = ri, cfgrec
+    piece = records[start:]
+    out.append((start, piece if start == 0 else [start_cfg] + piece))
+    return out
+
+
 def validate(name, sessions, focus="ALL", jobs=12, chunk_events=1500, timeout=900):
     """sessions: list of lists of records; each session starts with a cfg record (and is
     independent of the others: the driver was reset before it).  Returns a dict with
@@ -152,14 +174,16 @@ def validate(name, sessions, focus="ALL", jobs=12, chunk_events=1500, timeout=90
     workdir = prepare_dir(name, focus)
     chunks, cur, cur_map = [], [], []
     maps = []
-    for si, s in enumerate(sessions):
-        if cur and len(cur) + len(s) > chunk_events:
-            chunks.append(cur)
-            maps.append(cur_map)
-            cur, cur_map = [], []
-        for ri, r in enumerate(s):
-            cur.append(r)
-            cur_map.append((si, ri))
+    for si, sess in enumerate(sessions):
+        for (off, piece) in split_session(sess, chunk_events):
+            if cur and len(cur) + len(piece) > chunk_events:
+                chunks.append(cur)
+                maps.append(cur_map)
+                cur, cur_map = [], []
+            for pi, r in enumerate(piece):
+                cur.append(r)
+                # index of this record in the original session (the injected cfg record maps to the cut)
+                cur_map.append((si, pi if off == 0 else off + pi - 1))
     if cur:
         chunks.append(cur)
         maps.append(cur_map)
@@ -181,6 +205,10 @@ def validate(name, sessions, focus="ALL", jobs=12, chunk_events=1500, timeout=90
             res["states"] += stats.get("distinct", 0)
             res["transitions"] += stats.get("generated", 0)
             res["events"] += len(chunks[i])
+            try:
+                os.remove(os.path.join(workdir, "trace_%d.ndjson" % i))
+            except OSError:
+                pass
     res["verdicts"].sort()
     res["knowns"].sort()
     res["wall_s"] = time.time() - t0
